@@ -89,11 +89,17 @@ def delimSearch (optLB : Bool) (mk : Bytes) : Bytes → Option (Nat × Nat × Bo
       | some (s, e, fin) => some (s + 1, e + 1, fin)
       | none => none
 
-/-- `(?:\r\n\r\n|\r\r|\n\n)` anchored at the head -/
+/-- `(?:\r\n\r\n|\r\r|\n\n)` anchored at the head: length of the match (0: none).
+The three alternatives start with different byte pairs, so at most one applies. -/
 def blankAt : Bytes → Nat
-  | 13 :: 10 :: 13 :: 10 :: _ => 4
-  | 13 :: 13 :: _ => 2
-  | 10 :: 10 :: _ => 2
+  | a :: b :: rest =>
+    if a = 13 ∧ b = 13 then 2
+    else if a = 10 ∧ b = 10 then 2
+    else if a = 13 ∧ b = 10 then
+      match rest with
+      | c :: d :: _ => if c = 13 ∧ d = 10 then 4 else 0
+      | _ => 0
+    else 0
   | _ => 0
 
 /-- BLANK_LINE_RE.search : (start, stop) -/
